@@ -86,7 +86,7 @@ Qed.
 
 (* C01 at trace level *)
 Theorem sat_log_valid lg sol :
-  check_sat_log_lenient lg sol = true -> valid U P sol (exempt P sol).
+  check_sat_log_lenient lg sol = true -> valid U P sol (exempt U P sol).
 Proof.
   unfold check_sat_log_lenient, check_db, check_run. intro H.
   apply andb_true_iff in H. destruct H as [H Hs]. apply andb_true_iff in H. destruct H as [H _].
@@ -97,12 +97,8 @@ Proof.
   destruct (lits_eqb (rev (tlits tr)) (l_trail lg)); [|discriminate].
   destruct (check_sat_lenient_sound U P HW _ _ _ Hs) as [E Hv]. subst sol.
   assert (Hss : same_set (sel_of (tlits tr)) (rev (sel_of (tlits tr)))) by (intro x; apply in_rev).
-  assert (Hex : exempt P (rev (sel_of (tlits tr))) = exempt P (sel_of (tlits tr))).
-  { unfold exempt. apply filter_ext. intro s.
-    destruct (memN s (rev (sel_of (tlits tr)))) eqn:E1; destruct (memN s (sel_of (tlits tr))) eqn:E2;
-      try reflexivity.
-    - apply memN_In in E1. apply in_rev in E1. apply memN_In in E1. congruence.
-    - apply memN_In in E2. apply in_rev in E2. apply memN_In in E2. congruence. }
+  assert (Hex : exempt U P (rev (sel_of (tlits tr))) = exempt U P (sel_of (tlits tr))).
+  { apply exempt_same_set. intro x. symmetry. apply in_rev. }
   rewrite Hex. eapply valid_same_set; eauto.
 Qed.
 
